@@ -40,7 +40,8 @@ FAM = {
     "into_struct": dict(derives=["Into"], item="{A} struct S(i32);", name="into", atoms={
         "bare": "", "owned": "(owned)", "ref": "(ref)", "ref_mut": "(ref_mut)", "owned_ref": "(owned, ref)", "ref_refmut": "(ref, ref_mut)",
         "all3": "(owned, ref, ref_mut)", "all3_comma": "(owned, ref, ref_mut,)", "ty_a": "(i64)", "ty_b": "(i128)", "ty_ab": "(i64, i128)",
-        "unknown_form": "(frob(i32))", "legacy_types": "(types(i64))", "mixed_forms": "(i64, ref(i32))"}),
+        "unknown_form": "(frob(i32))", "legacy_types": "(types(i64))", "mixed_forms": "(i64, ref(i32))",
+        "forms_nocomma": "(ref(i32) ref_mut)"}),
     "into_field": dict(derives=["Into"], item="struct S {{ a: i32, {A} b: u8 }}", name="into", atoms={"skip": "(skip)", "ignore": "(ignore)"}),
     "legacy_field": dict(derives=["Deref", "DerefMut"], item="struct S {{ {A} a: Vec<u8>, b: u8 }}", name="{n}", atoms={
         "sel": "", "ignore": "(ignore)", "forward": "(forward)", "unknown": "(frobnicate)", "eq_value": ' = "x"',
